@@ -35,6 +35,9 @@ CHECKS = {
  "C15": dict(engine="kani", technique="Kani/CBMC on is_valid_identifier / is_reserved_keyword against reference predicates for all ASCII names <= 3 bytes, every reserved word with its one-byte extensions and truncations",
    text=BOUNDED + "The two predicates with_function relies on agree with the reference (first char `_` or XID_Start, rest XID_Continue; the 38 reserved words plus every lexer keyword) for every ASCII name up to 3 bytes, selected non-ASCII names, and all near misses of reserved words.",
    note="Function names only: duplicate detection for rules and functions (add_boxed_function gave no CBMC verdict), symbol overwrite and invocability are NOT decided.", ref="3/C15"),
+ "C16": dict(engine="z3", technique="z3 inductive print->parse step per node kind over the Display templates and grammar extracted from the source (children as opaque phrases of symbolic level); z3 queries on the lexer DFA for literal shapes and for seams between adjacent rendered pieces",
+   text=BOUNDED + "(i) for every node kind the extracted Display template, with every child an opaque phrase of any grammar level, derives to exactly that node with those children (induction on depth: unbounded nesting); (ii) every literal rendering shape up to the bound is one token of its class; (iii) no token pattern matches across a seam where two rendered pieces touch. Counterexamples are round-tripped through the real parser and printer.",
+   note="Trusted: template/grammar extraction shapes (un-encodable source => exit 2), core::fmt number shapes and from_str(to_string(x))==x; lists/maps with 0-2 items; literal shapes <= 5 (8) code points; string contents by Kani only in the thorough tier (1-2 chars).", ref="3/C16"),
  "C17": dict(engine="kani", technique="Kani/CBMC harness per conversion and per (target, source tag) over the whole source type",
    text=BOUNDED + "Every integer extraction over all i128 values, every widening over the whole source type, same-kind round trips, every wrong-kind extraction (error carries the same value), Option, and small containers.",
    note="Containers beyond 2 elements / 1 entry and HashMap are outside; container harnesses that time out are listed inconclusive.", ref="3/C17"),
@@ -48,7 +51,7 @@ NA = {
  "C19": "native stack exhaustion is not represented in CBMC's memory model and occurs at depths (1e2-1e5 frames) far beyond any unwinding that terminates here",
 }
 PENDING = {p: "check under construction in this session (see DESIGN.md section 3); not claimed until it is registered here" for p in
-           ["C05", "C16"]}
+           ["C05"]}
 def main():
     checks = []
     for pid, c in CHECKS.items():
